@@ -879,6 +879,17 @@ func runScenario(ns *rig.NatsServer, c Config) (res *Result) {
 				r.Restart = true
 				return r
 			}
+			// ... and every callback has returned (nats.go Barrier: runs after
+			// the callbacks queued before it on every subscription)
+			handed := make(chan struct{})
+			if err := srvConn.Barrier(func() { close(handed) }); err != nil {
+				return s.inconclusive("barrier: %v", err)
+			}
+			if !s.await(handed) {
+				r := s.inconclusive("NATS callbacks did not return: %+v", s.snap())
+				r.Restart = true
+				return r
+			}
 		}
 		if c.Dur == "gate" && c.K > 0 && c.StopFrom == "" {
 			// handlers are parked on the gate: wait until the server is in the
